@@ -31,7 +31,12 @@ func (c *Ctx) ackAcceptsTypes() {
 		return
 	}
 	c.R.Rule(ruleT2, "the set of states the queue releases (Acked), the set the consumer of released entries completes (release loop), the set Ack accepts, and MQTT's terminal acknowledgements {PUBACK, PUBREL (incoming QoS 2), PUBCOMP, SUBACK, UNSUBACK, PINGRESP} agree; PUBREC is accepted by Ack but never released; Ack fails only for a non-acknowledgement type or a failing re-encode.")
-	g := paths.New(c.P, fn, 0)
+	// a block of Ack moved into a method of the queue is followed: its returns are judged where they are
+	g := paths.New(c.P, fn, 1)
+	expanded := func(callee *ssa.Function) bool {
+		return callee != nil && callee != fn && callee.Blocks != nil && recvNamed(callee) == "Ackqueue" && c.P.InLib(callee)
+	}
+	g.Expand = func(callee *ssa.Function, site ssa.CallInstruction) bool { return expanded(callee) }
 	entry := []paths.Node{g.Entry()}
 	for _, k := range []int64{4, 5, 6, 7, 9, 11, 13} {
 		atom := fmt.Sprintf("eq:Message.Type:%d", k)
@@ -60,6 +65,9 @@ func (c *Ctx) ackAcceptsTypes() {
 			}
 			if src := errCallSource(res); src != nil && src.Common().IsInvoke() && src.Common().Method.Name() == "Encode" {
 				return false
+			}
+			if src := errCallSource(res); src != nil && expanded(src.Common().StaticCallee()) && n.F != nil && n.F.Depth < g.MaxDepth {
+				return false // the helper's own returns are judged
 			}
 			return true
 		}
